@@ -176,6 +176,10 @@ func walkerGoroutines() int {
 // settledWalkers polls until no walker goroutine is left or one second has passed.
 func settledWalkers() int {
 	deadline := time.Now().Add(time.Second)
+	if overloaded() {
+		// operations that are still finishing legitimately hold walkers; on an overloaded machine give them time
+		deadline = time.Now().Add(20 * time.Second)
+	}
 	for {
 		n := walkerGoroutines()
 		if n == 0 || time.Now().After(deadline) {
